@@ -130,6 +130,11 @@ pub fn config(name: &str, wasm: &[u8], out: &mut Vec<Json>) {
         for (gd, pct, names) in [(false, false, true), (false, true, true), (true, false, false), (true, true, true), (false, true, false)] {
             let r = catch(|| { let mut c = ModuleConfig::new(); c.generate_dwarf(gd).preserve_code_transform(pct).generate_name_section(names).generate_producers_section(false); let mut m = c.parse(&input).ok()?; amod::decode(&m.emit_wasm()).ok() }).flatten();
             if let Some(b) = r { let has = b.customs.iter().any(|c| c.0.starts_with(".debug")); if has != gd { out.push(v("dwarf-switch-ignored", "C14", format!("{}: generate_dwarf({}) preserve_code_transform({}) generate_name_section({}): the output {} .debug sections", name, gd, pct, names, if has { "has" } else { "has no" }), &input, format!("{:?}", b.sections), String::new())); } } }
+        // the LAST call of the DWARF setter decides, however often it was called before on the same configuration
+        for seq in [vec![true, false], vec![false, true], vec![true, false, true], vec![true, true, false]] {
+            let want = *seq.last().unwrap(); let sq = seq.clone();
+            let r = catch(|| { let mut c = ModuleConfig::new(); c.generate_producers_section(false); for g in &sq { c.generate_dwarf(*g); } let mut m = c.parse(&input).ok()?; amod::decode(&m.emit_wasm()).ok() }).flatten();
+            if let Some(b) = r { let has = b.customs.iter().any(|c| c.0.starts_with(".debug")); if has != want { out.push(v("dwarf-switch-ignored", "C14", format!("{}: generate_dwarf called with {:?} in this order on one configuration: the output {} .debug sections", name, seq, if has { "has" } else { "has no" }), wasm, format!("{:?}", b.sections), String::new())); } } }
         // the switch does not depend on what is left of the code: with every function unexported and collected, the debug sections are still carried over
         for gd in [true, false] {
             let r = catch(|| { let mut c = ModuleConfig::new(); c.generate_dwarf(gd).generate_producers_section(false); let mut m = c.parse(&input).ok()?;
@@ -242,6 +247,7 @@ pub fn index_maps(name: &str, wasm: &[u8], obs: &Observed, out: &mut Vec<Json>) 
             match fimps.get(i) { Some(w) => if w.0 != imp.module || w.1 != imp.name { bad(format!("parse-time function index {} maps to import {}.{} but the binary imports {}.{} there", i, imp.module, imp.name, w.0, w.1)); }, None => bad(format!("parse-time function index {} maps to an import but the binary defines a local function there", i)) } }
         FunctionKind::Local(l) => { if i < fimps.len() { bad(format!("parse-time function index {} maps to a local function but the binary imports a function there", i)); } else { let t = m.types.get(l.ty()); let got = (t.params().iter().map(wvt).collect::<Vec<_>>(), t.results().iter().map(wvt).collect::<Vec<_>>()); if Some(got) != func_sig(a, i as u32) { bad(format!("parse-time function index {} maps to a function with another signature", i)); }
             // locals: params then declared, by type
+            if obs.pm.locals.get(id).is_none() { if let Some(body) = a.code.get(i - fimps.len()) { let n = func_sig(a, i as u32).map(|s| s.0.len()).unwrap_or(0) + body.locals.iter().map(|(c, _)| *c as usize).sum::<usize>(); if n > 0 { bad(format!("parse-time local map of function {} is empty inside the on_parse callback although the function has {} parameters and declared locals", i, n)); } } }
             if let (Some(ls), Some(body)) = (obs.pm.locals.get(id), a.code.get(i - fimps.len())) { let mut want: Vec<wasmparser::ValType> = func_sig(a, i as u32).map(|s| s.0).unwrap_or_default(); for (c, t) in &body.locals { for _ in 0..*c { want.push(*t); } }
                 let got: Vec<wasmparser::ValType> = ls.iter().map(|l| wvt(&m.locals.iter().find(|x| x.id().index() == *l).unwrap().ty())).collect(); if got != want { bad(format!("parse-time local map of function {} does not list params then declared locals", i)); } } } }
         _ => {} } } }
